@@ -16,6 +16,16 @@ type Extension interface {
 	GetTrack(stopTimeUpdate *gtfsrt.TripUpdate_StopTimeUpdate) *string
 }
 
+// PerFeedExtension is an optional interface for extensions that keep state while the entities of one
+// feed message are being processed. If the extension passed to the parser implements it, ForFeed is
+// called once per message and the extension it returns is used for that message only. No state can then
+// leak from one parse into the next, and a single extension value can be shared by concurrent parses.
+type PerFeedExtension interface {
+	Extension
+
+	ForFeed() Extension
+}
+
 type UpdateTripResult struct {
 	// Whether this trip should be skipped.
 	ShouldSkip bool
